@@ -2,9 +2,19 @@ import PeliteModel.Driver.Image
 import PeliteModel.Model.Exports
 import PeliteModel.Model.WrapExports
 import PeliteModel.Spec.Exports
-/-! Driver handlers for the export directory (C08): `exports <k> dump`, `export <k> <query> <args…>`.
+/-! Driver handlers for the export directory (C08): `exports <k> dump`, `exports <k> by`,
+`export <k> <query> <args…>`.
 The part after ` ## ` is the answer of the declarative specification (`Spec/Exports.lean`) evaluated on
-the abstract tables, without references, and `hyp=1` when the theorem behind it applies.
+the abstract tables, without references, and `hyp=1` when the theorem behind it applies.  Lookups by
+name (`name`, `hint_name`, `import byname`, `get name|byname`, `proc name|byname`, `symfwd name`)
+additionally carry `accept=[a;b;…]`: the acceptable-answer set `Spec.acceptName` of the tables, in the
+text of `spec=` — the oracle on ANY table, also where `hyp=0` (`C08_name_in_accept`,
+`C08_hint_name_in_accept`, `C08_import_in_accept`, `C08_get_export_in_accept`).
+
+`exports <k> by`: `image()`, `dll_name()`, `ordinal_base()` called ON THE `By` — for a format specific
+`By` through `Deref<Target = Exports>`, for `wf` / `wv` the wrapper's own methods (`WBy.image`,
+`WBy.dllName`, `WBy.ordinalBase`).  `export <k> symfwd <index|ordinal|hint|name> <arg>`: the lookup,
+then `Export::symbol()` and `Export::forward()` of the answer.
 
 For the constructors `wf` / `wv` the harness calls the format agnostic API (`src/wrap/exports.rs`,
 `Wrap<Pe32, Pe64>::exports`); the driver then answers through the model of that API
@@ -69,6 +79,9 @@ def isWrapKind (k : String) : Bool :=
 wrapper `Wrap<By32, By64>` (`ByApi.ofWrap`) -/
 structure ByApi where
   y : By                       -- the wrapped `By`: the specification side reads the abstract tables off it
+  image : Ref                  -- `by.image()`, `by.dll_name()`, `by.ordinal_base()`
+  dllName : Out Ref
+  ordinalBase : Nat
   fns : Tab
   names : Tab
   idx : Tab
@@ -90,13 +103,14 @@ structure ByApi where
   iterNameIndices : List (Out (Out Ref × Nat))
 
 def ByApi.ofBy (y : By) : ByApi :=
-  { y := y, fns := y.fns, names := y.names, idx := y.idx, fnAt := y.fnAt, nameAt := y.nameAt, idxAt := y.idxAt,
+  -- src: exports.rs:`impl Deref for By` (`Target = Exports`): the methods of `self.exp`
+  { y := y, image := y.exp.image, dllName := y.exp.dllName, ordinalBase := y.exp.ordinalBase, fns := y.fns, names := y.names, idx := y.idx, fnAt := y.fnAt, nameAt := y.nameAt, idxAt := y.idxAt,
     checkSorted := y.checkSorted, ordinal := y.ordinal, index := y.index, hint := y.hint, name := y.name,
     nameLinear := y.nameLinear, hintName := y.hintName, imp := y.import, nameOfHint := y.nameOfHint,
     nameLookup := y.nameLookup, iter := y.iter, iterNames := y.iterNames, iterNameIndices := y.iterNameIndices }
 
 def ByApi.ofWrap (w : WBy) : ByApi :=
-  { y := w.get, fns := w.functions, names := w.names, idx := w.nameIndices,
+  { y := w.get, image := w.image, dllName := w.dllName, ordinalBase := w.ordinalBase, fns := w.functions, names := w.names, idx := w.nameIndices,
     fnAt := fun i => le32 w.b (w.functions.off + 4 * i), nameAt := fun i => le32 w.b (w.names.off + 4 * i),
     idxAt := fun i => le16 w.b (w.nameIndices.off + 2 * i),
     checkSorted := w.checkSorted, ordinal := w.ordinal, index := w.index, hint := w.hint, name := w.name,
@@ -160,6 +174,38 @@ def dumpOp (img : Option Img) (k : String) : String :=
     | .ok s => s
     | .error s => s
 
+/-- `exports <k> by`: `p.exports()?.by()?`, then `image()`, `dll_name()`, `ordinal_base()` of the `By` -/
+def byHeadP (wrap : Bool) (v : View) : P String := do
+  match ← strict (byApi wrap v) with
+  | .error e => pure ("err " ++ e.name)
+  | .ok y =>
+    let dll ← icstr v.b y.dllName
+    pure s!"ok img={ref y.image} dll={dll} base={y.ordinalBase}"
+
+def byHeadOp (img : Option Img) (k : String) : String :=
+  withView img k fun v =>
+    match byHeadP (isWrapKind k) v with
+    | .ok s => s
+    | .error s => s
+
+/-! `Export::symbol()` / `Export::forward()` (src: wrap/exports.rs `impl Export`): `Model/Exports.lean`
+has no function of its own for them (`getProcAddress` matches on the constructor in place), so the
+two projections are written here, on the model's `Export`. -/
+
+-- src: wrap/exports.rs:Export::symbol   (`Export::Symbol(&rva) => Some(rva), _ => None`)
+def exportSymbol (b : Bytes) : Export → Option Nat
+  | .symbol r => some (le32 b r.off)
+  | .forward _ => none
+-- src: wrap/exports.rs:Export::forward   (`Export::Forward(name) => Some(name), _ => None`)
+def exportForward : Export → Option Ref
+  | .forward r => some r
+  | .symbol _ => none
+
+def symFwdStr (b : Bytes) (e : Export) : String :=
+  let s := match exportSymbol b e with | some rva => s!"some:{rva}" | none => "none"
+  let f := match exportForward e with | some r => s!"some:{cstrStr b r}" | none => "none"
+  s!"sym={s} fwd={f}"
+
 /-- the caller's name as a `&CStr`: cut at the first NUL -/
 def cutNul (l : List Nat) : List Nat := l.takeWhile (· ≠ 0)
 
@@ -171,6 +217,13 @@ def symStr : Spec.Sym → String
 def specOut (o : Out Spec.Sym) : String := (outStr symStr o).replace " " "_"
 def specImp (o : Out Spec.Imp) : String :=
   (outStr (fun | Spec.Imp.byName h s => s!"ByName({h},{hexL s})" | Spec.Imp.byOrdinal o => s!"ByOrdinal({o})") o).replace " " "_"
+
+/-- the acceptable-answer set in the text of `spec=`, without repetitions: `[a;b;…]` (no blanks) -/
+def acceptStr (l : List String) : String := s!"[{join l.eraseDups ";"}]"
+def acceptField (l : Option (List String)) : String :=
+  match l with
+  | some l => " accept=" ++ acceptStr l
+  | none => ""
 
 def importQ (a : List String) : Option ImportQ :=
   match a with
@@ -184,10 +237,13 @@ def queryQ (a : List String) : Option Query :=
   | ["ordinal", o] => some (.ordinal (num o % 65536))
   | _ => (importQ a).map .import
 
-def specImport (T : Spec.Tables) (cs : Nat → Out (List Nat)) (i : ImportQ) : Out Spec.Sym × Bool :=
+/-- specification answer, `hyp`, and for a lookup by name the acceptable-answer set -/
+abbrev SpecAns := Out Spec.Sym × Bool × Option (List (Out Spec.Sym))
+
+def specImport (T : Spec.Tables) (cs : Nat → Out (List Nat)) (i : ImportQ) : SpecAns :=
   match i with
-  | .byName h q => (Spec.hintName T cs h q, Spec.nameDetermined T cs)
-  | .byOrdinal o => (Spec.ordinal T cs o, true)
+  | .byName h q => (Spec.hintName T cs h q, Spec.nameDetermined T cs, some (Spec.acceptName T cs q))
+  | .byOrdinal o => (Spec.ordinal T cs o, true, none)
 
 def queryOp (img : Option Img) (k : String) (q : String) (a : List String) : String :=
   withView img k fun v =>
@@ -198,41 +254,55 @@ def queryOp (img : Option Img) (k : String) (q : String) (a : List String) : Str
       | none => "bad-op"
       | some qq =>
         -- the abstract tables, when the directory and its tables can be read
-        let spec : Option (Out Spec.Sym × Bool) :=
+        let spec : Option SpecAns :=
           match (tryFrom v).bind (·.by) with
           | .ok y =>
             let T := tablesOf y
             some (match qq with
-              | .name n => (Spec.name T cs n, Spec.nameDetermined T cs)
-              | .ordinal o => (Spec.ordinal T cs o, true)
+              | .name n => (Spec.name T cs n, Spec.nameDetermined T cs, some (Spec.acceptName T cs n))
+              | .ordinal o => (Spec.ordinal T cs o, true, none)
               | .import i => specImport T cs i)
           | _ => none
         if q == "get" then
           -- wrappers: `get_export_by_name` / `_by_ordinal` / `_by_import` of `Wrap<Pe32, Pe64>`
           rexp b (if isWrapKind k then wGetExport (Wrap.ofView v) qq else getExport v qq) ++ (match spec with
-            | some (s, h) => s!" ## spec={specOut s} hyp={if h then 1 else 0}"
+            | some (s, h, acc) => s!" ## spec={specOut s} hyp={if h then 1 else 0}" ++ acceptField (acc.map (·.map specOut))
             | none => "")
         else
+          let pa (s : Out Spec.Sym) : String :=
+            (outStr toString (Spec.procAddress v.imageBase (sizeOfImage v.b) v.fmt.vaLimit s)).replace " " "_"
           natOut (getProcAddress v qq) ++ (match spec with
-            | some (s, h) => s!" ## spec={(outStr toString (Spec.procAddress v.imageBase (sizeOfImage v.b) v.fmt.vaLimit s)).replace " " "_"} hyp={if h then 1 else 0}"
+            | some (s, h, acc) => s!" ## spec={pa s} hyp={if h then 1 else 0}" ++ acceptField (acc.map (·.map pa))
             | none => "")
     else
     match byApi (isWrapKind k) v with
     | .ok y =>
       let T := tablesOf y.y
-      let one (m : Out Export) (s : Out Spec.Sym) (hyp : Bool := true) : String :=
-        rexp b m ++ s!" ## spec={specOut s} hyp={if hyp then 1 else 0}"
+      let one (m : Out Export) (s : Out Spec.Sym) (hyp : Bool := true)
+          (acc : Option (List (Out Spec.Sym)) := none) : String :=
+        rexp b m ++ s!" ## spec={specOut s} hyp={if hyp then 1 else 0}" ++ acceptField (acc.map (·.map specOut))
+      -- `symfwd`: the lookup, then `Export::symbol()` / `Export::forward()` of its answer
+      let sf (m : Out Export) (s : Out Spec.Sym) (hyp : Bool := true)
+          (acc : Option (List (Out Spec.Sym)) := none) : String :=
+        outStr (symFwdStr b) m ++ s!" ## spec={specOut s} hyp={if hyp then 1 else 0}" ++ acceptField (acc.map (·.map specOut))
       match q, a with
       | "ordinal", [o] => one (y.ordinal (num o % 65536)) (Spec.ordinal T cs (num o % 65536))
       | "index", [i] => one (y.index (num i)) (Spec.index T cs (num i))
       | "hint", [h] => one (y.hint (num h)) (Spec.hint T cs (num h))
       | "name", [nm] => one (y.name (unhexL nm)) (Spec.name T cs (unhexL nm)) (Spec.nameDetermined T cs)
+          (some (Spec.acceptName T cs (unhexL nm)))
       | "name_linear", [nm] => one (y.nameLinear (unhexL nm)) (Spec.nameLinear T cs (unhexL nm))
       | "hint_name", [h, nm] => one (y.hintName (num h) (unhexL nm)) (Spec.hintName T cs (num h) (unhexL nm)) (Spec.nameDetermined T cs)
+          (some (Spec.acceptName T cs (unhexL nm)))
       | "import", a =>
         (match importQ a with
-         | some i => let (s, h) := specImport T cs i; one (y.imp i) s h
+         | some i => let (s, h, acc) := specImport T cs i; one (y.imp i) s h acc
          | none => "bad-op")
+      | "symfwd", ["ordinal", o] => sf (y.ordinal (num o % 65536)) (Spec.ordinal T cs (num o % 65536))
+      | "symfwd", ["index", i] => sf (y.index (num i)) (Spec.index T cs (num i))
+      | "symfwd", ["hint", h] => sf (y.hint (num h)) (Spec.hint T cs (num h))
+      | "symfwd", ["name", nm] => sf (y.name (unhexL nm)) (Spec.name T cs (unhexL nm)) (Spec.nameDetermined T cs)
+          (some (Spec.acceptName T cs (unhexL nm)))
       | "name_of_hint", [h] =>
         outStr (cstrStr b) (y.nameOfHint (num h)) ++
           s!" ## spec={(outStr hexL (Spec.nameOfHint T cs (num h))).replace " " "_"} hyp=1"
@@ -245,6 +315,7 @@ def queryOp (img : Option Img) (k : String) (q : String) (a : List String) : Str
 def dispatchExports : Handler := fun st fam a =>
   match fam, a with
   | "exports", [k, "dump"] => some (dumpOp st.img k)
+  | "exports", [k, "by"] => some (byHeadOp st.img k)
   | "export", k :: q :: rest => if rest.isEmpty then some "bad-op" else some (queryOp st.img k q rest)
   | "exports", _ | "export", _ => some "bad-op"
   | _, _ => none
